@@ -320,6 +320,10 @@ func genC08(r *world.Rng, w *world.World, big bool) {
 	if t.Entry != "subset" && r.Bool(0.3) {
 		// genuine solver trace on a problem large enough to need search
 		n = r.Range(8, 14)
+		if r.Bool(0.3) {
+			// long traces with long learned clauses: entailment is then decided by the reference DPLL
+			n = r.Range(18, 34)
+		}
 		cl = randKSAT(r, n, int(float64(n)*(4.2+0.8*r.Float())), 3, 3)
 		t.N, t.Clauses = n, cl
 		t.Text = dimacsText(r, n, cl, true)
